@@ -7,10 +7,13 @@
    "take a man that is there / put a man on an empty square" operations (Proofs/ConsProofs.v), and every generated move is
    well-formed for it (Proofs/GenOk.v).  `nkc` (no king capture) is decidable; no generated move violates it when the side not to
    move is not in check; the judge evaluates it on every move the engine generates.
-   Placement w.r.t. the rules (C02_full) is decided per run: the extracted monitor mon_make compares every successor
-   the engine produces with Spec.apply and checks occupancy = unions / disjointness / one king each. *)
+   Placement w.r.t. the rules: C02_successor_is_the_rules_successor (Proofs/AbsMake.v) -- abs (made position) = Spec.apply (abs g) m
+   for every position satisfying the invariant and every accepted generated move.  What stays open in C02_full is only the
+   rules-level well-formedness `wf` of the successor (it mentions the specification's own in_check, i.e. C01's attack semantics).
+   Per run the extracted monitor mon_make compares every successor the ENGINE produces with Spec.apply and checks
+   occupancy = unions / disjointness / one king each. *)
 From Coq Require Import NArith List Bool.
-From JV Require Import Gen.Consts Model.Bits Model.Chess Model.Abs Proofs.MakeProofs Proofs.GenProofs Proofs.ConsProofs Proofs.GenOk Proofs.KingsProofs Proofs.MakeGen.
+From JV Require Import Gen.Consts Model.Bits Model.Chess Model.Abs Proofs.MakeProofs Proofs.GenProofs Proofs.ConsProofs Proofs.GenOk Proofs.KingsProofs Proofs.MakeGen Proofs.LegalInv Proofs.LegalInvB Proofs.AbsMake.
 Local Open Scope N_scope.
 
 Theorem C02_scalars : forall g m g', make_search_move g m = Made g' ->
@@ -33,6 +36,26 @@ Theorem C02_one_king_each : forall g all m g', cons g -> kings g -> In m (genera
   make_search_move g m = Made g' -> kings g'.
 Proof. exact make_kings_generated. Qed.
 
+(* without the side condition: at every position satisfying the invariant legal_inv (consistent, one king each, men on board squares,
+   the side not to move not in check, right key) no generated move captures a king (attack symmetry, Proofs/AttackSym.v), so every
+   made generated move leads to a position satisfying the invariant again; legal_inv_b is its executable form *)
+Theorem C02_invariant_preserved : forall g all m g', legal_inv g -> In m (generate_moves g all) ->
+  make_search_move g m = Made g' -> legal_inv g'.
+Proof.
+  intros g all m g' L HI M. apply (legal_step g all m g' L HI). unfold SearchChess.c_make. rewrite M. reflexivity.
+Qed.
+Theorem C02_invariant_executable : forall g, legal_inv_b g = true -> legal_inv g.
+Proof. exact legal_inv_b_sound. Qed.
+
+(* THE placement statement: for every position satisfying the invariant and every generated move that make_search_move accepts, the
+   64-cell abstraction of the result is exactly the successor the rules prescribe (Spec.apply: piece placement incl. the rook hop,
+   the removed pawn in en passant and the new piece in promotion; side to move; the four castling rights; en-passant target;
+   half-move clock; full-move number).  The two clock hypotheses exclude the u8 / u16 wrap written out in C02_scalars. *)
+Theorem C02_successor_is_the_rules_successor : forall g all m g',
+  legal_inv g -> half g < 255 -> full g < 65535 -> In m (generate_moves g all) ->
+  make_search_move g m = Made g' -> abs g' = ChessSpec.apply (abs g) (umove m).
+Proof. exact make_is_spec_apply. Qed.
+
 (* every generated move is well-formed for make_search_move *)
 Theorem C02_generated_moves_well_formed : forall g all m, cons g -> In m (generate_moves g all) -> nkc g m -> move_ok g m.
 Proof. intros g all m C H NK. exact (generated_moves_ok g C all m H NK). Qed.
@@ -44,4 +67,7 @@ Print Assumptions C02_scalars.
 Print Assumptions C02_consistency.
 Print Assumptions C02_consistency_pass.
 Print Assumptions C02_one_king_each.
+Print Assumptions C02_invariant_preserved.
+Print Assumptions C02_invariant_executable.
+Print Assumptions C02_successor_is_the_rules_successor.
 Print Assumptions C02_generated_moves_well_formed.
